@@ -579,5 +579,24 @@ where
     }
 }
 
+/// Read-only accessors used by the external verification harness (`--cfg crux_verif`).
+#[cfg(crux_verif)]
+impl<Effect, Event> Command<Effect, Event> {
+    /// Number of tasks currently held by this command (without running anything).
+    pub fn verif_live_tasks(&self) -> usize {
+        self.tasks.len()
+    }
+
+    /// Lengths of the (ready, spawn, effect, event) queues (without running anything).
+    pub fn verif_queues(&self) -> (usize, usize, usize, usize) {
+        (
+            self.ready_queue.len(),
+            self.spawn_queue.len(),
+            self.effects.len(),
+            self.events.len(),
+        )
+    }
+}
+
 #[cfg(test)]
 mod tests;
